@@ -77,3 +77,120 @@ class is_long_year:
 
     def value(self):
         return spec.iso_long_year(self.year)
+
+
+# ========================================================================================== Date arithmetic (C04)
+import datetime as _dt
+
+from contracts import duration as _dur
+from contracts.helpers import _add_duration_base
+from pendulum.duration import Duration
+from pyvc.engine import Obj
+from pyvc.spec import DUS
+
+_DU = ("years", "months", "weeks", "days")
+
+
+def date_add_spec(self, u):
+    """ordinal of self.add(**u): shift years/months, clamp the day, then whole days; and representability"""
+    full = dict(u, hours=0, minutes=0, seconds=0, microseconds=0)
+    ty, tmo, w = _add_duration_base._target(self, full)
+    o = sym.fdiv(w, DUS)
+    days_us = sym.mul(sym.add(sym.mul(u["weeks"], 7), u["days"]), DUS)
+    return o, And(spec.valid_year(ty), stdlib.td_in_range(days_us), ge(o, 1), le(o, spec.MAXORD))
+
+
+class _date_add_base:
+    def requires(self, **u):
+        return [("result_representable", date_add_spec(self, u)[1])]
+
+    def result(F, self, **u):
+        o, _ = stdlib.fresh_date(F, self.cls, "dsum")
+        return o
+
+    def ensures(result, self, **u):
+        return [("valid_fields", spec.valid_date(result.year, result.month, result.day)), ("class", result.cls is self.cls),
+                ("calendar_shift_clamp_then_days", eq(spec.date_ord(result), date_add_spec(self, u)[0]))]
+
+
+def _date_args(F):
+    o, c = stdlib.fresh_date(F, pendulum.Date, "self")
+    a = dict(self=o)
+    for n in _DU:
+        a[n] = F.int(n)
+    return a, [c]
+
+
+def _is_pdate(x):
+    return isinstance(x, Obj) and issubclass(x.cls, pendulum.Date) and not issubclass(x.cls, _dt.datetime)
+
+
+@contract("pendulum.date.Date.add", props=["C04", "C16", "C19"])
+class date_add(_date_add_base):
+    args = _date_args
+
+    def applies(self, **u):
+        return _is_pdate(self)
+
+
+def _neg(u):
+    return {k: sym.neg(v) for k, v in u.items()}
+
+
+def _date_delegation(units_of):
+    class base:
+        def requires(self, **a):
+            return _date_add_base.requires(self, **units_of(**a))
+
+        def result(F, self, **a):
+            return _date_add_base.result(F, self, **units_of(**a))
+
+        def ensures(result, self, **a):
+            return _date_add_base.ensures(result, self, **units_of(**a))
+
+    return base
+
+
+@contract("pendulum.date.Date.subtract", props=["C04", "C16", "C19"])
+class date_subtract(_date_delegation(lambda **u: _neg(u))):
+    args = _date_args
+
+
+def _date_with(kind, pname):
+    def args(F):
+        o, c = stdlib.fresh_date(F, pendulum.Date, "self")
+        if kind == "duration":
+            d, dc = _dur.fresh_duration(F, Duration, pname)
+        else:
+            d, dc = stdlib.fresh_td(F, _dt.timedelta, pname)
+        return {"self": o, pname: d}, [c, dc]
+
+    return args
+
+
+def _dur_date_units(d, sign=1):
+    return dict(years=sym.mul(d._years, sign), months=sym.mul(d._months, sign), weeks=sym.mul(d._weeks, sign), days=sym.mul(d._remaining_days, sign))
+
+
+def _td_date_units(d, sign=1):
+    # a plain timedelta moves a date by its (floor) day count
+    return dict(years=0, months=0, weeks=0, days=sym.mul(sym.fdiv(d.us, DUS), sign))
+
+
+def _date_td_contract(qualname, pname, sign):
+    class on_duration(_date_delegation(lambda **a: _dur_date_units(a[pname], sign))):
+        args = _date_with("duration", pname)
+        applies = staticmethod(lambda **a: isinstance(a[pname], Obj) and a[pname].cls is Duration)
+
+    class on_timedelta(_date_delegation(lambda **a: _td_date_units(a[pname], sign))):
+        args = _date_with("timedelta", pname)
+        applies = staticmethod(lambda **a: isinstance(a[pname], Obj) and a[pname].cls is _dt.timedelta)
+
+    ns = type("date_td", (), {"cases": {"duration": on_duration, "timedelta": on_timedelta}})
+    contract(qualname, props=["C04"])(ns)
+
+
+_date_td_contract("pendulum.date.Date._add_timedelta", "delta", 1)
+_date_td_contract("pendulum.date.Date._subtract_timedelta", "delta", -1)
+_date_td_contract("pendulum.date.Date.__add__", "other", 1)
+_date_td_contract("pendulum.date.Date.__sub__", "other", -1)
